@@ -63,7 +63,8 @@ def gen(repo, pins):
     for name in ('take_message', 'is_valid', 'calculate_pdu_length', 'larger_than', 'into_message', 'finish',
                  'into_messages', 'add_announcements_from_pdu', 'add_withdrawals_from_pdu', 'from_update_message',
                  'set_mp_nexthop', 'add_announcement', 'add_withdrawal', 'split', 'value_len', 'compose_value',
-                 'compose_len', 'compose'):
+                 'compose_len', 'compose', 'withdrawals_from_iter', 'append_withdrawals', 'announcements_from_iter',
+                 'from_attributes_builder', 'add_community'):
         pinned[name] = sha(norm(find_fn(src, name)[0]))
     pinned['take_message'] = sha(norm(tm_masked))
     # second occurrences (MpUnreachNlriBuilder; the per-MP-builder from_pdu bodies)
